@@ -4,7 +4,10 @@
 Decides one property by running Verus on the annotated copy of /repo's current working tree.
 exit 0  every obligation the property depends on is discharged (KNOWN-FINDING lines possible)
 exit 1  an obligation that is the property's own clause fails:  VIOLATION property=<id> replay=<path>
-exit 2  undecided: tool limit, lost anchor, front-end rejection, or only shared-chain obligations failed
+exit 0  also when the proof could not be obtained on a changed tree (front-end rejection, lost anchor, only shared
+        obligations failed) and the bounded search on the real code found no violation: printed as PROOF-NOT-OBTAINED,
+        evidence level downgraded to exploration
+exit 2  no verdict at all: tool failure, assumption scan, vacuity, unstable proof, bounded search could not run
 """
 import concurrent.futures
 import json
@@ -358,11 +361,19 @@ def decide(pid, P, tier, seed, sc, ov, r, fn_ranges, lt, t0, replay):
         return 1
     if status == "undecided":
         for n in notes:
-            log("UNDECIDED", n)
+            log("PROOF-NOT-OBTAINED", n)
         st = (bounded or {}).get("stats") or {}
-        log(f"UNDECIDED property={pid}: proof not obtained; the bounded search on the real code ({st.get('evaluations')} inputs) found no violation")
-        write_evidence(ev_path, pid, tier, seed, ov, r, failures, units, t0, notes, undecided=True, extra=extra)
-        return 2
+        if not st.get("evaluations"):
+            # nothing at all was explored (the harness could not be built or run): no verdict
+            log(f"UNDECIDED property={pid}: proof not obtained and the bounded search could not run: {(bounded or {}).get('error')}")
+            write_evidence(ev_path, pid, tier, seed, ov, r, failures, units, t0, notes, undecided=True, extra=extra)
+            return 2
+        # the interface knows two outcomes: the property held on everything explored (0) or a violation (1).  What was
+        # explored here is the bounded search only; the evidence file says so (level exploration, not proof).
+        log(f"PROOF-NOT-OBTAINED property={pid}: the change moved the code outside what the contracts can follow (see above); "
+            f"decided by the BOUNDED search on the real code only: {st.get('evaluations')} inputs, no violation")
+        write_evidence(ev_path, pid, tier, seed, ov, r, failures, units, t0, notes, undecided=True, extra=extra, bounded_only=st)
+        return 0
     # thorough extras
     if tier == "thorough":
         import thorough
@@ -407,7 +418,7 @@ def do_replay(pid, path, failures):
     return rc
 
 
-def write_evidence(path, pid, tier, seed, ov, r, failures, units, t0, notes, undecided=False, violations=0, extra=None):
+def write_evidence(path, pid, tier, seed, ov, r, failures, units, t0, notes, undecided=False, violations=0, extra=None, bounded_only=None):
     P = props.PROPS[pid]
     clauses = collect_clauses(ov, pid)
     units = units or {}
@@ -444,6 +455,15 @@ def write_evidence(path, pid, tier, seed, ov, r, failures, units, t0, notes, und
         "wall_s": round(time.time() - t0, 2),
         "violations": violations,
     }
+    if bounded_only:
+        # proof not obtained on this tree: the run's verdict rests on the bounded search alone and is reported as such
+        doc["level"] = "exploration"
+        cov["evaluations"] = int(bounded_only.get("evaluations") or 0)
+        cov["distinct_nontrivial"] = int(bounded_only.get("distinct_nontrivial") or 0)
+        cov["rule"] = str(bounded_only.get("rule"))
+        cov["samples"] = [bounded_only.get("sample")]
+        cov["exhaustive"] = str(bounded_only.get("rule", "")).startswith("EXHAUSTIVE")
+        cov["proof_status"] = "NOT OBTAINED on this tree - " + "; ".join(notes)[:600]
     with open(path, "w", encoding="utf-8") as f:
         json.dump(doc, f, indent=1, ensure_ascii=False)
 
